@@ -280,7 +280,8 @@ def part_c(ctx, corr):
                             % (days[si], n_settle_stop), rp)
             # ---- the continuation equals the uninterrupted run
             d0 = days[si + 1]
-            idx = next(i for i, (kd, e) in enumerate(full.events) if kd == "PRE_BEFORE_TRADING" and e["cal"].date() == d0)
+            # the continuation starts with the first entry of the resume day (a reinvestment trade is published before the PRE_BEFORE_TRADING handler runs)
+            idx = next(i for i, (kd, e) in enumerate(full.events) if (e.get("cal") or e.get("when")) is not None and (e.get("cal") or e.get("when")).date() == d0)
             tail = canon_slice(full.events[idx:])
             ev2 = list(p2.events)
             while ev2 and ev2[0][0] in ("PRE_SETTLEMENT", "POST_SETTLEMENT"):
